@@ -21,6 +21,7 @@ ENGINE_SHADOW = {
     "cargo_toml": "harness/shadow/chalk-engine.Cargo.toml",
     "appends": {
         "src/slg.rs": [("harness/engine/c17_inval.rs", "verif_c17_inval")],
+        "src/slg/aggregate.rs": [("harness/engine/c17_anti.rs", "verif_c17_anti")],
     },
 }
 
@@ -191,18 +192,25 @@ PROPS = {
         "design_ref": "DESIGN.md §4.3",
     },
     "C17": {
-        "units": [engine_unit("harness/engine/c17_inval.rs",
-                              modules={"harness/engine/c17_inval.rs": "slg::verif_c17_inval"})],
-        "claim": "SubstitutionExt::may_invalidate (MayInvalidate::aggregate_*; chalk-engine/src/slg.rs) answers "
+        "units": [engine_unit("harness/engine/c17_inval.rs", "harness/engine/c17_anti.rs",
+                              modules={"harness/engine/c17_inval.rs": "slg::verif_c17_inval",
+                                       "harness/engine/c17_anti.rs": "slg::aggregate::verif_c17_anti"})],
+        "claim": "(1) AntiUnifier::aggregate_tys / aggregate_lifetimes / aggregate_consts / aggregate_name_and_substs "
+                 "(chalk-engine/src/slg/aggregate.rs): for 30 classes (8 list-carrying / pointer constructors with agreeing or "
+                 "differing ids and children, references, arrays with agreeing lengths (differing lengths: withdrawn, spurious CBMC pointer failures in ena's Vec::push), leaf pairs) both inputs "
+                 "are instances of the aggregate, the aggregate is linear (every fresh variable once), agreeing "
+                 "constructors / positions are kept and each disagreeing position becomes exactly one fresh variable. "
+                 "(2) SubstitutionExt::may_invalidate (MayInvalidate::aggregate_*; chalk-engine/src/slg.rs) answers "
                  "'cannot invalidate' only when the candidate answer is an instance of the current guidance, where the "
                  "bound variables of the guidance must be instantiated consistently (non-linear guidance such as "
                  "(X, X)). One constructor application per side over leaf children.",
         "bounds": "one constructor application per side; two children; leaf kinds fixed per query (bound variable / "
                   "ground / scalar / placeholder), payloads symbolic at full width including the indices of the "
                   "guidance's bound variables (so repeated variables are covered); unwind 8",
-        "outside": "AntiUnifier / merge_into_guidance / make_solution as wholes (they go through InferenceTable: ena "
-                   "tables on the untyped heap, DESIGN.md P30); lifetimes (MayInvalidate answers 'may invalidate' for "
-                   "every lifetime pair, trivially conservative)",
+        "outside": "merge_into_guidance / make_solution as wholes (InferenceTable::canonicalize on ena's heap tables, "
+                   "DESIGN.md P30); anti-unification deeper than one constructor over leaves; top-level ids in the "
+                   "anti-unifier classes are concrete (an id read back out of the widest TyKind variant is opaque to CBMC); "
+                   "lifetimes in MayInvalidate (it answers 'may invalidate' for every lifetime pair, trivially conservative)",
         "assumptions": ["canonical binders [Ty, Ty, Const] in the root universe; the substitutions are well-kinded and "
                         "contain no free inference variables (MayInvalidate's documented contract)"],
         "stubs": ["tracing, tracing-attributes: no-op stub crates via [patch.crates-io]"],
